@@ -61,16 +61,16 @@ type sepViol struct {
 }
 
 type sepEngine struct {
-	p          *Program
-	prim       *ssa.Function // writeString
-	fmtT       *types.Named
-	memo       map[sepKey]*sepSummary
-	inProg     map[sepKey]bool
-	changed    bool
-	viols      map[string]sepViol
-	sites      map[string]bool
-	unresolved map[string]bool
-	inRound    map[sepKey]bool
+	p              *Program
+	prim           *ssa.Function // writeString
+	fmtT           *types.Named
+	memo           map[sepKey]*sepSummary
+	inProg         map[sepKey]bool
+	changed        bool
+	viols          map[string]sepViol
+	sites          map[string]bool
+	unresolved     map[string]bool
+	inRound        map[sepKey]bool
 	nonEmptyFields map[string]bool // "Struct.Field": lists the parser never leaves empty
 }
 
